@@ -72,6 +72,7 @@ def run(ctx):
     import importlib as _il18
     _il18.import_module("rules.c13").d4_codec(db, rep, "D10-CONST-CODEC")
     d11_avx_constant_full_width(db, rep)
+    d12_generator_flushes_results(db, rep)
     # ---- D2 ------------------------------------------------------------------
     rows = {r["name"]: r for r in init_rows(db.tu("orcopcodes-sys").global_("opcodes")) if isinstance(r, dict) and r.get("name")}
     FLOAT = db.macro_int("ORC_STATIC_OPCODE_FLOAT_SRC") | db.macro_int("ORC_STATIC_OPCODE_FLOAT_DEST")
@@ -450,4 +451,34 @@ def d11_avx_constant_full_width(db, rep, rule="D11-CONST-FULL-WIDTH"):
                       line=c.line)
     if n < 3:
         raise AnalysisBroken("only %d VEX.128 writes found in the AVX constant loaders" % n)
+    return n
+
+
+def d12_generator_flushes_results(db, rep, rule="D12-GENERATED-C-FLUSHES"):
+    """"Generated C agree[s] bit for bit": the C back end's template for a result-flushing float opcode (D3's ARITH family) must
+    store the result through ORC_DENORMAL / ORC_DENORMAL_DOUBLE, as the emulator statement generated from it does.  (C04 D2-STALE
+    reports a template that differs from the checked-in emulator; this states the flush itself, for the generator.)"""
+    import importlib
+    c04 = importlib.import_module("rules.c04")
+    ctu = db.tu("orcprogram-c")
+    init = db.func("orc_c_init", "orcprogram-c")
+    n = 0
+    for c in init.calls("orc_rule_register"):
+        a = c.args()
+        nm = strip_casts(a[1]).get("str")
+        fn = strip_casts(a[2])
+        if nm not in ARITH or fn is None or fn.k != "DeclRefExpr" or fn.name not in ctu.fn:
+            continue
+        t = c04.template_of(ctu.fn[fn.name])
+        if t is None:
+            continue
+        n += 1
+        rep.saw(ctu.fn[fn.name])
+        stores = [s_ for s_ in t.replace("{", ";").replace("}", ";").split(";") if s_.startswith("@=")]
+        ok = bool(stores) and all("ORC_DENORMAL" in s_ for s_ in stores)
+        rep.check(ok, rule, where(ctu.fn[fn.name]), "template:%s" % nm, "the generated C stores the result of %s flushed" % nm,
+                  "the C back end's template for `%s` stores its result as `%s`, not through ORC_DENORMAL: the backup function and the Orc-free code keep a "
+                  "denormal result where emulation and native code (FTZ) give zero" % (nm, (stores or ["?"])[0][:60]), line=ctu.fn[fn.name].line)
+    if n < 8:
+        raise AnalysisBroken("only %d templates of result-flushing float opcodes found" % n)
     return n
